@@ -35,7 +35,9 @@ def run(tier, wd):
     # remaining arguments of the same length (valued options are then often spelled as two tokens throughout)
     A_, B_, O_, E_ = g.Opt("-a"), g.Opt("-b"), g.Opt("-o"), g.Opt("-e")
     for e_ in [g.Seq(g.Alt(E_, O_), g.Rep(g.Optional(E_))), g.Seq(g.Alt(B_, A_), O_, g.Rep(B_)), g.Seq(g.Alt(A_, B_), E_, g.Optional(A_), g.Optional(O_)),
-               g.Seq(g.Alt(O_, E_), g.Rep(g.Optional(g.Alt(O_, E_))))]:
+               g.Seq(g.Alt(O_, E_), g.Rep(g.Optional(g.Alt(O_, E_)))),
+               # a required option written first, optional ones behind it: its matcher has to step over whatever stands in front
+               g.Seq(B_, g.Optional(A_), g.Optional(O_)), g.Seq(E_, g.Optional(B_), g.Optional(A_), g.Optional(O_)), g.Seq(O_, g.Rep(g.Optional(A_)), g.Optional(E_))]:
         st = g.render(p, e_)
         if st not in [x["str"] for x in specs]:
             specs.append({"ast": e_, "str": st, "extra": True})
@@ -76,6 +78,15 @@ def run(tier, wd):
                 post = render(p, items[i + 2:], choice[i + 2:])
                 a = pre + rnd.choice(fa) + post
                 b = pre + rnd.choice(fb) + post
+            if not sep and rnd.random() < 0.35:
+                # both lines with the same spelling of every occurrence, plain short forms folded wherever they happen to be adjacent
+                # (a folded group that ends in a valued option with its value in the next token, stepped over as a whole, ...)
+                full = [(rnd.choice([x for x in G.occ_spellings(p, it) if x[1] is not None] or G.occ_spellings(p, it)) if it[0] == "occ"
+                         else ([it[1]] if it[0] == "pos" else ["--"], None)) for it in items]
+                fullb = list(full)
+                fullb[i], fullb[i + 1] = fullb[i + 1], fullb[i]
+                a = rnd.choice(list(G.foldings(full)))
+                b = rnd.choice(list(G.foldings(fullb)))
             key = (si, tuple(a), tuple(b))
             if key in seen or a == b:
                 continue
